@@ -132,6 +132,10 @@ type model struct {
 	reported map[uint64]bool // region index -> reported integrity under the current state id
 	down     map[uint64]bool
 	timedOut bool
+	// scanMark: how far the last recovery scan got (number of regions that had reported when a tick
+	// last ran in sync_recover). The manager's scan cursor is hidden state: histories that differ
+	// in it must not be merged even when everything observable is equal.
+	scanMark int
 	start    string // initial persisted state ("" = first initialisation -> sync)
 }
 
@@ -242,6 +246,7 @@ func (m *model) Reset() {
 	m.reported = map[uint64]bool{}
 	m.down = map[uint64]bool{}
 	m.timedOut = false
+	m.scanMark = 0
 	s := m.mm.GetReplicationStatus()
 	want := pb.DRAutoSyncState_SYNC
 	if m.start != "" {
@@ -285,7 +290,7 @@ func (m *model) Key() string {
 		rs = append(rs, fmt.Sprintf("%v/%v/%v", reg.GetReplicationStatus().GetState(), cur, m.reported[uint64(r)]))
 	}
 	h := m.mm.GetReplicationStatusHTTP()
-	return fmt.Sprintf("%v|%v|%v|%v|%s|%d/%d", m.served().mode, m.served().state, d, m.timedOut, strings.Join(rs, ","), h.DrAutoSync.SyncedRegions, h.DrAutoSync.TotalRegions) + m.conf.DRAutoSync.LabelKey
+	return fmt.Sprintf("%d|%v|%v|%v|%v|%s|%d/%d", m.scanMark, m.served().mode, m.served().state, d, m.timedOut, strings.Join(rs, ","), h.DrAutoSync.SyncedRegions, h.DrAutoSync.TotalRegions) + m.conf.DRAutoSync.LabelKey
 }
 
 func (m *model) failCounts() (p, d int) {
@@ -373,6 +378,9 @@ func (m *model) Apply(i int) *hist.Violation {
 		}
 		m.timedOut = true
 	case "tick":
+		if before.mode == "dr-auto-sync" && before.state == pb.DRAutoSyncState_SYNC_RECOVER {
+			m.scanMark = len(m.reported) + 1
+		}
 		m.mm.VerifTickDR()
 	case "config":
 		switch o.arg {
@@ -525,6 +533,7 @@ func main() {
 			{Name: "3regions/from-sync-recover", Tiers: "quick", Depth: 5, NewModel: func() hist.Model { return wrap{from(newModel(3, -1, 2, false, false), "sync_recover")} }},
 			{Name: "3regions+gap/from-sync-recover", Tiers: "quick", Depth: 5, NewModel: func() hist.Model { return wrap{from(newModel(3, 1, 2, false, false), "sync_recover")} }},
 			{Name: "3regions/outage/from-sync-recover", Tiers: "quick", Depth: 7, NewModel: func() hist.Model { return wrap{withOutage(from(newModel(3, -1, 2, false, false), "sync_recover"))} }},
+			{Name: "2regions+config/from-sync-recover", Tiers: "quick", Depth: 6, NewModel: func() hist.Model { return wrap{onlyGoodReports(from(newModel(2, -1, 1024, false, true), "sync_recover"))} }},
 			{Name: "3regions/from-async", Tiers: "quick", Depth: 5, NewModel: func() hist.Model { return wrap{from(newModel(3, -1, 2, false, false), "async")} }},
 			{Name: "2regions+faults/from-sync-recover", Tiers: "quick", Depth: 5, NewModel: func() hist.Model { return wrap{from(newModel(2, -1, 1024, true, false), "sync_recover")} }},
 			{Name: "3regions+gap", Tiers: "quick", Depth: 5, NewModel: func() hist.Model { return wrap{newModel(3, 1, 2, false, false)} }},
@@ -546,6 +555,23 @@ func main() {
 }
 
 func from(m *model, start string) *model { m.start = start; return m }
+
+// onlyGoodReports drops the stale-id / majority reports and the store events (smaller alphabet
+// for scopes that are about configuration switches during / after a recovery).
+func onlyGoodReports(m *model) *model {
+	var ops []op
+	for _, o := range m.ops {
+		if o.kind == "report" && !(o.integ && o.curID) {
+			continue
+		}
+		if o.kind == "down" || o.kind == "up" || o.kind == "time" {
+			continue
+		}
+		ops = append(ops, o)
+	}
+	m.ops = ops
+	return m
+}
 
 // withOutage keeps only integrity reports and ticks and adds the outage macro step.
 func withOutage(m *model) *model {
